@@ -203,11 +203,11 @@ __CPROVER_assigns(self->num_small_holes, self->num_small_slots, self->num_grid_h
 __CPROVER_assigns(__CPROVER_object_whole(self->data))
 ENSURES(boundary_tags_untouched, self->data[h] == __CPROVER_old(self->data[h]) && self->data[h + HS(self, h) - 1] == __CPROVER_old(self->data[h + HS(self, h) - 1]))
 ENSURES(live_slots_are_never_altered, self->data[ghost_g] == __CPROVER_old(self->data[ghost_g]))
-ENSURES(medium_hole_heads_its_list, !IS_MEDIUM(self, h) || ((size_t)self->medium_hole_list[HS(self, h)] == h && SLOT(self, h, 1) == 0 && SLOT(self, h, 2) == __CPROVER_old(self->medium_hole_list[TAGSIZE(self, h)])))
+ENSURES(medium_hole_heads_its_list, !IS_MEDIUM(self, h) || ((size_t)self->medium_hole_list[HS(self, h)] == h && SLOT(self, h, 1) == 0 && SLOT(self, h, 2) == __CPROVER_old(self->medium_hole_list[TAGSIZE(self, h) % LargeHoleSize])))   /* old() is evaluated unconditionally: keep its index in range */
 ENSURES(old_medium_head_points_back, !IS_MEDIUM(self, h) || SLOT(self, h, 2) == 0 || (size_t)SLOT(self, SLOT(self, h, 2), 1) == h)
 ENSURES(huge_hole_heads_the_huge_list, !IS_HUGE(self, h) || ((size_t)self->huge_holes == h && SLOT(self, h, 1) == 0 && SLOT(self, h, 2) == __CPROVER_old(self->huge_holes) && (SLOT(self, h, 2) == 0 || (size_t)SLOT(self, SLOT(self, h, 2), 1) == h)))
 ENSURES(first_grid_hole_is_bottom_and_top, !IN_GRID(self, h) || __CPROVER_old(self->grid_bottom) != 0 || ((size_t)self->grid_bottom == h && (size_t)self->grid_top == h && SLOT(self, h, 1) == 0 && SLOT(self, h, 2) == 0 && SLOT(self, h, 3) == 0 && SLOT(self, h, 4) == 0))
-ENSURES(larger_than_all_becomes_new_top, !IN_GRID(self, h) || __CPROVER_old(self->grid_bottom) == 0 || HS(self, h) <= TAGSIZE(self, __CPROVER_old(self->grid_top)) || ((size_t)self->grid_top == h && SLOT(self, h, 3) == 0 && SLOT(self, h, 4) == __CPROVER_old(self->grid_top) && (size_t)SLOT(self, __CPROVER_old(self->grid_top), 3) == h))
+ENSURES(larger_than_all_becomes_new_top, !IN_GRID(self, h) || __CPROVER_old(self->grid_bottom) == 0 || HS(self, h) <= (size_t)(__CPROVER_old(self->data[self->grid_top]) & ~MSBINT) || ((size_t)self->grid_top == h && SLOT(self, h, 3) == 0 && SLOT(self, h, 4) == __CPROVER_old(self->grid_top) && (size_t)SLOT(self, __CPROVER_old(self->grid_top), 3) == h))
 ENSURES(small_holes_are_not_linked, HS(self, h) >= MediumHoleSize || (self->grid_bottom == __CPROVER_old(self->grid_bottom) && self->grid_top == __CPROVER_old(self->grid_top) && self->huge_holes == __CPROVER_old(self->huge_holes)))
 ENSURES(arena_extent_untouched, self->last_used_slot == __CPROVER_old(self->last_used_slot))
 ;
